@@ -56,15 +56,20 @@ Relevant == /\ Finished
 
 CL == ("DYN0" :> L) @@ ("DYN3" :> L2)
 Lowest == (HasTy("DYN0") /\ L = 1) \/ (HasTy("DYN3") /\ L2 = 1)
-All == Append(toks, [ty |-> "EOF", lit |-> "", nl |-> FALSE, ok |-> TRUE])
-P == [DefaultP(All) EXCEPT !.cprefix = {"DYN1"}, !.cinfix = CL, !.cpostfix = {"DYN2"}]
+\* layout variant: a line break in front of every registered INFIX operator (an operator at the
+\* start of a line continues the expression - only ++ / -- are restricted productions)
+Laid(brk) == [j \in 1..Len(toks) |-> IF brk /\ toks[j].ty \in {"DYN0", "DYN3"} THEN [toks[j] EXCEPT !.nl = TRUE] ELSE toks[j]]
+AllOf(brk) == Append(Laid(brk), [ty |-> "EOF", lit |-> "", nl |-> FALSE, ok |-> TRUE])
+PO(brk) == [DefaultP(AllOf(brk)) EXCEPT !.cprefix = {"DYN1"}, !.cinfix = CL, !.cpostfix = {"DYN2"}]
 
-Inv == Relevant =>
-         LET r   == ParseProgram(P)
-             rec == [toks |-> [j \in 1..Len(All) |-> [ty |-> All[j].ty, lit |-> All[j].lit, nl |-> FALSE, nonl |-> FALSE, opt |-> FALSE]],
+Inv == Relevant => \A brk \in (IF HasTy("DYN0") \/ HasTy("DYN3") THEN BOOLEAN ELSE {FALSE}) :
+         LET All == AllOf(brk)
+             P   == PO(brk)
+             r   == ParseProgram(P)
+             rec == [toks |-> [j \in 1..Len(All) |-> [ty |-> All[j].ty, lit |-> All[j].lit, nl |-> All[j].nl, nonl |-> FALSE, opt |-> FALSE]],
                      res |-> [tree |-> r.tree, nerr |-> Len(r.errs), err |-> Len(r.errs) > 0], cl |-> CL, lowest |-> Lowest]
              f   == C05A_Failures(rec)
          IN /\ (f = {} \/ PrintT(<<"MODELFAIL", f, ToJson([toks |-> toks, L |-> L, L2 |-> L2, tree |-> r.tree])>>))
-            /\ (Export => PrintT(ToJson([toks |-> [j \in 1..Len(All) |-> [ty |-> All[j].ty, lit |-> All[j].lit, nl |-> FALSE]],
+            /\ (Export => PrintT(ToJson([toks |-> [j \in 1..Len(All) |-> [ty |-> All[j].ty, lit |-> All[j].lit, nl |-> All[j].nl]],
                                           L |-> L, L2 |-> L2, lowest |-> Lowest, want |-> r.tree])))
 =============================================================================
